@@ -208,9 +208,15 @@ def run_round_trips(b, tier, seed):
             data = os.path.join(top, 'data%d.csv' % i)
             with open(data, 'w', encoding=enc, newline='') as fh:
                 fh.write('\n'.join(lines) + '\n')
+            # the presence / absence of a header row is spelled in every way the dialect allows
+            hspell = i % 3
+            dialect = {'delimiter': delim, 'encoding': enc}
+            if hspell == 0 or (hspell == 2 and not header):
+                dialect['header'] = header
+            if hspell in (0, 1):
+                dialect['headerRowCount'] = 1 if header else 0
             md = {'@context': 'http://www.w3.org/ns/csvw',
-                  'dialect': {'delimiter': delim, 'encoding': enc, 'header': header,
-                              'headerRowCount': 1 if header else 0},
+                  'dialect': dialect,
                   'tables': [{'url': os.path.basename(data),
                               'tableSchema': {'columns': [
                                   {'name': 'i', 'datatype': 'integer'}, {'name': 'x', 'datatype': 'number'},
@@ -220,7 +226,7 @@ def run_round_trips(b, tier, seed):
             mdp = os.path.join(top, 'data%d-metadata.json' % i)
             with open(mdp, 'w') as fh:
                 json.dump(md, fh)
-            w = {'delimiter': delim, 'encoding': enc, 'header': header, 'booleans': [tb, fb],
+            w = {'delimiter': delim, 'encoding': enc, 'header': header, 'dialect': dialect, 'booleans': [tb, fb],
                  'date_format': dfmt, 'rows': [{k: repr(v) for k, v in r.items()} for r in rows]}
             b.case(('csv', i, delim, enc, header, tb, dfmt, repr(rows)))
             with quiet():
